@@ -578,8 +578,8 @@ struct Exec {
     void check_selection(SlotState &st, const Op &o) {
         const CpuModel &m = *g_cpu.model;
         int want = 0;
-        if (SimCPU::want128(m)) want = 1;
-        if (st.kind == CTR128 || st.kind == P128) if (SimCPU::want256(m)) want = 2;
+        if (SimCPU::want128(m) && lib_compiled_in(1)) want = 1;
+        if (st.kind == CTR128 || st.kind == P128) if (SimCPU::want256(m) && lib_compiled_in(2)) want = 2;     // "widest back end that is both compiled in and supported"
         if (g_cpu.traps.empty()) { PROBE("cpu.seam-bypassed"); return; }
         if (g_cpu.illegal_xgetbv) { violate("illegal-xgetbv", strf("%s executed XGETBV on CPU model %s, which does not report OSXSAVE (the instruction would fault there)", op_brief(plan, o).c_str(), m.name)); return; }
         if (st.backend < 0) { PROBE("cpu.backend-unknown"); return; }
